@@ -485,6 +485,7 @@ class HookHost(ReprMixin, LogMixin, metaclass=_HookHostMeta):
         cls = self.__class__
         result = cls.__new__(cls)
         result.__dict__.update(self.__dict__)
+        result.__cache__ = dict(self.__cache__)
         return result
 
     def __deepcopy__(self, memo):
